@@ -27,6 +27,7 @@ import KafkaVerif.Base.Proto
 import KafkaVerif.Model.WriterClose
 import KafkaVerif.Model.ReaderClose
 import KafkaVerif.Model.GroupRun
+import KafkaVerif.Model.TransportConnC17
 
 namespace KV.OracleC09
 open KV KV.WriterClose
@@ -245,7 +246,8 @@ def parseKind : String → Option Kind
 
 def parseRes : String → Option ReaderClose.Res
   | "msg" => some .msg | "eof" => some .eof | "ctx" => some .ctx | "closed" => some .closedPipe
-  | "gclosed" => some .groupClosed | "gen" => some .gen | "ok" => some .ok | "err" => some .err | _ => none
+  | "gclosed" => some .groupClosed | "gen" => some .gen | "ok" => some .ok | "err" => some .err
+  | "tmo" => some .err | _ => none
 
 /-- model events an observed token may stand for (`none` = unparsable, `[]` + true = ignore) -/
 def tokEvents (t : String) : Option (List ReaderClose.Event) :=
@@ -271,6 +273,8 @@ def tokEvents (t : String) : Option (List ReaderClose.Event) :=
   | ["fq"] => some [.fetchReq]
   | ["lk", _] => some []
   | ["oc", _] => some []
+  | ["ci"] => some []
+  | ["rl"] => some []
   | _ => none
 
 partial def closure (work : List ReaderClose.State) (seen : RS) : RS :=
@@ -376,12 +380,14 @@ def holds (toks : List String) : Bool :=
 /-- Transport round trips: each call is `roundTrip`; cancelled calls must have returned the context's error -/
 def holdsT (toks : List String) : Bool :=
   let calls := toks.filterMap fun t => match t.splitOn "/" with | ["rb", c, _] => some c | _ => none
-  calls.all (fun c => toks.contains s!"rr/{c}/ctx" || toks.contains s!"rr/{c}/err" && !toks.contains s!"cx/{c}") &&
+  calls.all (fun c => toks.contains s!"rr/{c}/ctx" || (toks.contains s!"rr/{c}/err" || toks.contains s!"rr/{c}/ok") && !toks.contains s!"cx/{c}"
+    -- a call whose answer arrived before its context ended may return it
+    || toks.contains s!"rr/{c}/ok") &&
   toks.all fun (t : String) => !(t.startsWith "lk/" || t.startsWith "oc/") || t == "lk/0" || t == "oc/0"
 
 def simulateT (toks : List String) : String :=
   match simulate false toks with
-  | r => if r.startsWith "close=" then ((r.drop ("close=none ".length)).toString.splitOn " ").headD "" else r
+  | r => if r.startsWith "close=" then (r.drop ("close=none ".length)).toString else r
 
 end R
 
@@ -540,6 +546,41 @@ def run (cfgs : String) (trace : String) : String × Bool :=
 
 end G
 
+/-! ## Transport connection life cycles: deterministic replay of the T.* hook events (op `ttrace`) -/
+
+namespace T
+open KV.TransportConn
+
+def parseEv (t : String) : Option Ev :=
+  let body := (t.drop 1).toString
+  match t.take 1 |>.toString, body.splitOn ":" with
+  | "N", [c, g] => do some (.new (← c.toNat?) (← g.toNat?))
+  | "G", [c] => c.toNat?.map .grab
+  | "R", [c] => c.toNat?.map .recv
+  | "D", [c, o] => do some (.done (← c.toNat?) (o == "ok") (o == "keep"))
+  | "L", [c, a] => do some (.release (← c.toNat?) (a == "1"))
+  | "M", [c] => c.toNat?.map .remove
+  | "C", [g] => g.toNat?.map .closeIdle
+  | "X", [c] => c.toNat?.map .exit
+  | _, _ => none
+
+/-- `model`: the trace is accepted step by step; after the scenario's deadlines and CloseIdleConnections the model
+predicts that no connection is alive (`closing_only_exits`, `released_refused_exits`: a closing connection can only
+exit; idle ones were closed by their group) -/
+def run (trace : String) : String × Bool :=
+  let toks := if trace == "-" then [] else (trace.splitOn ";").filter (· ≠ "")
+  match toks.mapM parseEv with
+  | none => ("bad-trace", false)
+  | some evs =>
+    let news := evs.filterMap fun e => match e with | .new c _ => some c | _ => none
+    let exits := evs.filterMap fun e => match e with | .exit c => some c | _ => none
+    let holds := news.all fun c => exits.contains c
+    match firstRejected [] evs 0 with
+    | some i => (s!"reject@{i}:{toks.getD i "?"}", holds)
+    | none => ("live=0", holds)
+
+end T
+
 def answer (model : String) (holds : Bool) : String :=
   s!"model={model} holds={if holds then 1 else 0}"
 
@@ -555,6 +596,7 @@ def step (line : String) : String :=
       answer (R.simulate (cfgs.startsWith "grp=1") toks) (R.holds toks)
     | "tclose" :: _ :: toks => answer (R.simulateT toks) (R.holdsT toks)
     | ["grun", cfgs, trace] => let (m, h) := G.run cfgs trace; answer m h
+    | ["ttrace", _, trace] => let (m, h) := T.run trace; answer m h
     | _ => "bad-op"
   | _ => "bad-line"
 
